@@ -279,6 +279,10 @@ class Emitter:
             return "(VList " + cl([self.value(t[1], x) for x in list(v)]) + ")"
         if k == "tuple":
             return "(VList " + cl(self.tuple_values(t, tuple(v))) + ")"
+        if k in ("dict", "mapping", "ordereddict", "defaultdict", "counter"):
+            for a in v:
+                if isinstance(a, float) and a == int(a):
+                    raise OutOfModel("integral float as mapping key (member name is repr(float))")
         if k in ("dict", "mapping", "ordereddict", "defaultdict"):
             return "(VDict " + cl([f"({self.value(t[1], a)}, {self.value(t[2], b)})" for a, b in v.items()]) + ")"
         if k == "counter":
